@@ -405,12 +405,16 @@ def global_snapshot():
                 continue
             if _plain(v):
                 snap[mname + ":" + k] = repr(v)
+            elif isinstance(v, (dict, list, set)):
+                snap[mname + ":" + k] = "container of %d" % len(v)      # a cache that grows shows as a new size
             elif isinstance(v, type) and getattr(v, "__module__", "").startswith("tracklib"):
                 for ck, cv in list(vars(v).items()):
                     if ck.startswith("__") and ck.endswith("__"):
                         continue
                     if _plain(cv):
                         snap[v.__module__ + "." + v.__name__ + ":" + ck] = repr(cv)
+                    elif isinstance(cv, (dict, list, set)):
+                        snap[v.__module__ + "." + v.__name__ + ":" + ck] = "container of %d" % len(cv)
     return snap
 
 
